@@ -64,6 +64,8 @@ type Contract struct {
 	MayBlock  bool
 	Nonblock  bool
 	Unchecked []string // obligation kinds not generated for this function (documented assumption)
+	Lemmas    []string // opt-in lemma families (bvarith)
+	Appends   []string // ghost logs that receive exactly one entry per call (trusted primitives only)
 }
 
 type Guarded struct {
@@ -85,7 +87,7 @@ type ContractSet struct {
 	typeInvs map[string][]*Clause
 }
 
-var labelRe = regexp.MustCompile(`^([A-Za-z][A-Za-z0-9_.\-]*):\s+`)
+var labelRe = regexp.MustCompile(`^([A-Za-z][A-Za-z0-9_.\-@]*):\s+`)
 
 // parseContractText parses the //@ lines of one file. pkgPath qualifies in-package names.
 func (cs *ContractSet) parseContractText(file string, lines []string, lineNos []int, ext bool) {
@@ -130,7 +132,7 @@ func (cs *ContractSet) parseContractText(file string, lines []string, lineNos []
 			cs.imports[a] = p
 		case "constglobal":
 			cs.consts[strings.TrimSpace(rest)] = true
-		case "mode", "logical", "requires", "ensures", "loop", "inline", "noinline", "trusted", "pure", "modifies", "noreturn", "assume", "call", "mayblock", "nonblocking", "unchecked":
+		case "mode", "logical", "requires", "ensures", "loop", "inline", "noinline", "trusted", "pure", "modifies", "noreturn", "assume", "call", "mayblock", "nonblocking", "unchecked", "appends", "lemmas":
 			if cur == nil {
 				cs.errs = append(cs.errs, src+": clause outside func block")
 				continue
@@ -152,6 +154,14 @@ func (cs *ContractSet) parseContractText(file string, lines []string, lineNos []
 				cur.MayBlock = true
 			case "nonblocking":
 				cur.Nonblock = true
+			case "lemmas":
+				for _, k := range strings.Split(rest, ",") {
+					cur.Lemmas = append(cur.Lemmas, strings.TrimSpace(k))
+				}
+			case "appends":
+				for _, k := range strings.Split(rest, ",") {
+					cur.Appends = append(cur.Appends, strings.TrimSpace(k))
+				}
 			case "unchecked":
 				for _, k := range strings.Split(rest, ",") {
 					cur.Unchecked = append(cur.Unchecked, strings.TrimSpace(k))
